@@ -561,6 +561,74 @@ def rule_r13(prog, res):
               c16.rule_r14, prog, Result)
 
 
+# ------------------------------------------------------------------ R14
+def rule_r14(prog, res):
+    res.rule('R14', 'element text is text: nothing assigns bytes '
+             '(to_bytes) to .text / .tail; the root element of an '
+             'XmlDocument message is named after the message')
+    n = 0
+    for rel in ('spyne/model/complex.py', 'spyne/protocol/xml.py'):
+        mod = next(m for m in prog.modules.values() if m.relpath == rel)
+        for f in mod.functions.values():
+            for a in walk_no_defs(f.node):
+                if isinstance(a, ast.Assign) and any(
+                        isinstance(t, ast.Attribute) and t.attr in (
+                            'text', 'tail') for t in a.targets):
+                    n += 1
+                    bad = [c for c in ast.walk(a.value) if isinstance(
+                        c, ast.Call) and call_name(c) in ('to_bytes',
+                                                          'encode')]
+                    where = '%s:%d' % (rel, a.lineno)
+                    res.ob('R14', where, '%s: %s' % (f.qualname,
+                                                     unparse(a)[:60]),
+                           'VIOLATED' if bad else 'ok')
+                    if bad:
+                        res.finding('R14', '%s|bytes-as-text' % f.qualname,
+                                    where, '%s sets element text from %s: '
+                                    'lxml refuses non-ASCII bytes, so a '
+                                    'value with non-ASCII characters cannot '
+                                    'be serialized (ValueError, a 500 with an '
+                                    'empty Envelope)' % (
+                                        f.qualname, unparse(bad[0])[:40]))
+    res.floor('R14', 'stores of element text', n, 4)
+    x = prog.cls('spyne.protocol.xml:XmlDocument')
+    f = x.methods.get('serialize')
+    k = 0
+    for c in calls_in(f.node):
+        nm = call_name(c)
+        if nm not in ('to_parent', 'incgen'):
+            continue
+        if any('out_error' in unparse(a) for a in c.args):
+            continue
+        k += 1
+        need = 6 if nm == 'to_parent' else 5
+        named = len(c.args) >= need or any(kw.arg == 'name'
+                                           for kw in c.keywords)
+        src = ''
+        if named:
+            a = c.args[need - 1] if len(c.args) >= need else [
+                kw.value for kw in c.keywords if kw.arg == 'name'][0]
+            src = unparse(a)
+            if isinstance(a, ast.Name):
+                src = ' '.join(unparse(b.value) for b in walk_no_defs(f.node)
+                               if isinstance(b, ast.Assign) and any(
+                                   isinstance(t, ast.Name) and t.id == a.id
+                                   for t in b.targets))
+        ok = named and ('get_element_name' in src or 'sub_name' in src)
+        where = '%s:%d' % (f.module.relpath, c.lineno)
+        res.ob('R14', where, 'XmlDocument.serialize: %s(%s)' % (
+            nm, 'name=' + src[:40] if named else 'no name'),
+            'ok' if ok else 'VIOLATED')
+        if not ok:
+            res.finding('R14', 'XmlDocument.serialize|root-name|%s' % nm,
+                        where, 'the message is written without its element '
+                        'name: a bare primitive result is named <retval> '
+                        'where the schema declares <methodResponse>, and '
+                        'with polymorphic=True a bare message is named after '
+                        'the runtime subclass')
+    res.floor('R14', 'message writes in XmlDocument.serialize', k, 2)
+
+
 def run(prog, res, tier):
     res.run_rule(rule_shared2, prog, res)
     res.run_rule(rule_r1, prog, res)
@@ -573,6 +641,7 @@ def run(prog, res, tier):
     res.run_rule(rule_r11, prog, res)
     res.run_rule(rule_r12, prog, res)
     res.run_rule(rule_r13, prog, res)
+    res.run_rule(rule_r14, prog, res)
 
 
 _X = 'spyne/protocol/xml.py'
@@ -580,6 +649,17 @@ _S = 'spyne/protocol/soap/soap11.py'
 _A = 'spyne/application.py'
 
 MUTANTS = [
+    Mutant('xmldata-bytes-as-text', 'R14', 'fire', 'spyne/model/complex.py',
+           in_func('XmlData.marshall',
+                   "parent_elt.text = prot.to_unicode(cls.type, value)",
+                   "parent_elt.text = prot.to_bytes(cls.type, value)"),
+           'bytes-as-text'),
+    Mutant('xml-root-without-message-name', 'R14', 'fire',
+           'spyne/protocol/xml.py',
+           in_func('XmlDocument.serialize',
+                   "result_inst, tmp_elt, self.app.interface.get_tns(), name)",
+                   "result_inst, tmp_elt, self.app.interface.get_tns())"),
+           'root-name'),
     Mutant('client-keyword-falsy-dropped', 'R12', 'fire',
            'spyne/client/_base.py',
            in_func('RemoteProcedureBase.get_out_object',
